@@ -315,11 +315,11 @@ package vm
 //@ loop 1 exit @C02 exit.return: op == code.OpReturn && old(depth(vm)) >= 1 ==> err == nil && result === T1(vm)
 //@ loop 1 exit @C18 exit.return.underflow: op == code.OpReturn && old(depth(vm)) == 0 ==> err != nil
 // variables
-//@ loop 1 step @C04 @C06 step.lookup.local: op == code.OpLookup && isStr(vm.constants[opArg]) && old(scopeIdx(vm, trimDollar(cname(vm, opArg)))) >= 0
-//@            ==> ip == old(ip) + 3 && pushed1(vm) && top(vm) === old(locals(vm)[scopeIdx(vm, trimDollar(cname(vm, opArg)))][trimDollar(cname(vm, opArg))])
-//@ loop 1 step @C04 @C06 step.lookup.global: op == code.OpLookup && isStr(vm.constants[opArg]) && old(scopeIdx(vm, trimDollar(cname(vm, opArg)))) < 0 && old(has(globals(vm), trimDollar(cname(vm, opArg))))
-//@            ==> ip == old(ip) + 3 && pushed1(vm) && top(vm) === old(globals(vm)[trimDollar(cname(vm, opArg))])
-//@ loop 1 step @C04 step.lookup.field: op == code.OpLookup && isStr(vm.constants[opArg]) && old(scopeIdx(vm, trimDollar(cname(vm, opArg)))) < 0 && !old(has(globals(vm), trimDollar(cname(vm, opArg))))
+//@ loop 1 step @C04 @C06 step.lookup.local: op == code.OpLookup && isStr(vm.constants[opArg]) && old(scopeIdx(vm, lookupName(vm.environment, cname(vm, opArg)))) >= 0
+//@            ==> ip == old(ip) + 3 && pushed1(vm) && top(vm) === old(locals(vm)[scopeIdx(vm, lookupName(vm.environment, cname(vm, opArg)))][lookupName(vm.environment, cname(vm, opArg))])
+//@ loop 1 step @C04 @C06 step.lookup.global: op == code.OpLookup && isStr(vm.constants[opArg]) && old(scopeIdx(vm, lookupName(vm.environment, cname(vm, opArg)))) < 0 && old(has(globals(vm), lookupName(vm.environment, cname(vm, opArg))))
+//@            ==> ip == old(ip) + 3 && pushed1(vm) && top(vm) === old(globals(vm)[lookupName(vm.environment, cname(vm, opArg))])
+//@ loop 1 step @C04 step.lookup.field: op == code.OpLookup && isStr(vm.constants[opArg]) && old(scopeIdx(vm, lookupName(vm.environment, cname(vm, opArg)))) < 0 && !old(has(globals(vm), lookupName(vm.environment, cname(vm, opArg))))
 //@            ==> ip == old(ip) + 3 && pushed1(vm) && (has(vm.fields, trimDollar(cname(vm, opArg))) ? top(vm) === vm.fields[trimDollar(cname(vm, opArg))] : isNull(top(vm)))
 //@ loop 1 step @C06 @C15 step.set.local: op == code.OpSet && old(depth(vm)) >= 2 && isStr(T1(vm)) && old(scopeIdx(vm, sval(T1(vm)))) >= 0
 //@            ==> ip == old(ip) + 1 && popped2(vm) && mapUpdated(locals(vm)[old(scopeIdx(vm, sval(T1(vm))))], old(sval(T1(vm))), T2(vm)) && mapUnchanged(globals(vm)) && otherScopesSame(vm, old(scopeIdx(vm, sval(T1(vm)))))
@@ -385,11 +385,11 @@ package vm
 //@ func (vm *VM) lookup(obj interface{}, name string) (result object.Object)
 //@   requires vmOK(vm) && vm.fields != nil
 //@   modifies vm.fields[*]
-//@   ensures @C04 @C06 lookup.local: old(scopeOf(vm.environment, trimDollar(name), len(vm.environment.local))) >= 0
-//@             ==> result === old(vm.environment.local[scopeOf(vm.environment, trimDollar(name), len(vm.environment.local))][trimDollar(name)])
-//@   ensures @C04 @C06 lookup.global: old(scopeOf(vm.environment, trimDollar(name), len(vm.environment.local))) < 0 && old(has(vm.environment.global, trimDollar(name)))
-//@             ==> result === old(vm.environment.global[trimDollar(name)])
-//@   ensures @C04 lookup.field: old(scopeOf(vm.environment, trimDollar(name), len(vm.environment.local))) < 0 && !old(has(vm.environment.global, trimDollar(name)))
+//@   ensures @C04 @C06 lookup.local: old(scopeOf(vm.environment, lookupName(vm.environment, name), len(vm.environment.local))) >= 0
+//@             ==> result === old(vm.environment.local[scopeOf(vm.environment, lookupName(vm.environment, name), len(vm.environment.local))][lookupName(vm.environment, name)])
+//@   ensures @C04 @C06 lookup.global: old(scopeOf(vm.environment, lookupName(vm.environment, name), len(vm.environment.local))) < 0 && old(has(vm.environment.global, lookupName(vm.environment, name)))
+//@             ==> result === old(vm.environment.global[lookupName(vm.environment, name)])
+//@   ensures @C04 lookup.field: old(scopeOf(vm.environment, lookupName(vm.environment, name), len(vm.environment.local))) < 0 && !old(has(vm.environment.global, lookupName(vm.environment, name)))
 //@             ==> (has(vm.fields, trimDollar(name)) ? result === vm.fields[trimDollar(name)] : isNull(result))
 //@   ensures lookup.good: validObj(result)
 //@   panics maybe
